@@ -183,6 +183,21 @@ NoLabel(ns) == \E i \in 1..Len(ns) : ns[i].kind = "q" /\ ns[i].hc /\ ~ns[i].lh /
 NameCount(ns, x) == Cardinality({i \in 1..Len(ns) : Last(ns[i].p) = x})
 BadRef(ns) == \E i \in 1..Len(ns) : \E k \in 1..Len(ns[i].refs) : NameCount(ns, ns[i].refs[k]) # 1
 
+\* identifiers a diagnosis of each tree-level problem may name (C17 "a message identifying the problem"):
+\* the set is the union over every problem present, because the order in which the code finds them is not
+\* part of the property
+DupSibIdents(ns) == {ns[i].lname : i \in {i \in 1..Len(ns) : \E j \in 1..Len(ns) :
+                        i # j /\ Parent(ns[i].p) = Parent(ns[j].p) /\ ns[i].lname = ns[j].lname}}
+DupSecIdents(ns) == {ns[i].lname : i \in {i \in 1..Len(ns) : IsSection(ns[i]) /\ \E j \in 1..Len(ns) :
+                        i # j /\ IsSection(ns[j]) /\ Last(ns[i].p) = Last(ns[j].p)}}
+SecFormIdents(ns) == IF SectionIsForm(ns) THEN {cfgv.formname} ELSE {}
+UnknownTypeIdents(ns) == {ns[i].type : i \in {i \in 1..Len(ns) : ns[i].kind = "q" /\ ns[i].gen \notin {"meta"} /\ ~TypeKnown(ns[i].type)}}
+NoLabelIdents(ns) == {ns[i].lname : i \in {i \in 1..Len(ns) : ns[i].kind = "q" /\ ns[i].hc /\ ~ns[i].lh /\ TypeKnown(ns[i].type)}}
+BadRefIdents(ns) == UNION {{ns[i].refs[k] : k \in {k \in 1..Len(ns[i].refs) : NameCount(ns, ns[i].refs[k]) # 1}} : i \in 1..Len(ns)}
+TreeErrIdents(ns) == DupSibIdents(ns) \cup DupSecIdents(ns) \cup SecFormIdents(ns) \cup UnknownTypeIdents(ns)
+                     \cup NoLabelIdents(ns) \cup BadRefIdents(ns)
+UnclosedIdents == {stack[i].name : i \in 1..Len(stack)}
+
 TreeError(ns) == IF UnknownType(ns) THEN "unknown_type"
                  ELSE IF DupSibling(ns) THEN "dup_sibling"
                  ELSE IF SectionIsForm(ns) THEN "section_is_form"
@@ -235,6 +250,9 @@ AcceptedIsUnambiguous ==
                              /\ \A i, j \in 1..Len(nodes) : i # j => nodes[i].p # nodes[j].p
 \* errors raised by the row loop always carry the row they belong to (C17)
 RowErrorsLocated == (outcome.status = "error" /\ outcome.kind \in RowLevelErrors) => outcome.row >= 2
+\* every tree-level rejection has at least one identifier its message can name (C17)
+IdentErrorsHaveIdent == (outcome.status = "error" /\ outcome.kind \in IdentErrors) =>
+                           (IF outcome.kind = "unclosed" THEN UnclosedIdents ELSE TreeErrIdents(nodes)) # {}
 ErrorKindsKnown == outcome.status = "error" => outcome.kind \in RowLevelErrors \cup IdentErrors \cup KindErrors
 \* table-list mode is never left on after an end row (action property)
 TableListResetOnEnd == [][Len(stack') < Len(stack) => tableList' = "none"]_rpvars
